@@ -60,7 +60,7 @@ from bounded import corpus
 from bounded.corpus import WB, Case, Result
 
 USES_DEFAULT_CORPUS = True
-N_GENERATED = {"quick": 50, "thorough": 1200}
+N_GENERATED = {"quick": 50, "thorough": 500}
 TIME_BUDGET_S = {"quick": 75, "thorough": 900}
 
 # per-case effort: single transformations (all sites when fewer; at most `container` of them sheet-level, which
@@ -69,9 +69,9 @@ EFFORT = {
     "quick": {"default": {"singles": 6, "container": 0.34, "xlsx": 0.25, "comps": 3, "ccomp": 12},
               "half": {"singles": 24, "container": 3, "xlsx": 2, "comps": 4, "ccomp": 4},
               "full": {"singles": 150, "container": 12, "xlsx": 11, "comps": 10, "ccomp": 4}},
-    "thorough": {"default": {"singles": 30, "container": 6, "xlsx": 3, "comps": 12, "ccomp": 3},
-                 "half": {"singles": 200, "container": 30, "xlsx": 6, "comps": 30, "ccomp": 3},
-                 "full": {"singles": 100000, "container": 100000, "xlsx": 40, "comps": 80, "ccomp": 3}},
+    "thorough": {"default": {"singles": 12, "container": 2, "xlsx": 1, "comps": 6, "ccomp": 3},
+                 "half": {"singles": 150, "container": 16, "xlsx": 11, "comps": 20, "ccomp": 3},
+                 "full": {"singles": 100000, "container": 100000, "xlsx": 44, "comps": 80, "ccomp": 3}},
 }
 
 # ----------------------------------------------------------------------------- the catalogue
@@ -560,7 +560,7 @@ def ops_extra_col(book, full=True):
         for name in (UNKNOWN_COLUMNS if full else UNKNOWN_COLUMNS[:2]):
             if norm_name(name) in existing:
                 continue
-            for at in ({0, len(s.cols) // 2, len(s.cols)} if full else {len(s.cols)}):
+            for at in (sorted({0, len(s.cols) // 2, len(s.cols)}) if full else [len(s.cols)]):
                 for fill in (("all", "some") if full else ("some",)):
                     out.append(Op("extra-col", f"{s.name}: unknown column {name!r} at {at}, {fill} rows filled",
                                   _add_col(s.id, name, at, fill)))
@@ -860,7 +860,7 @@ def ops_extra_sheet(book, full=True):
     for i, name in enumerate(names):
         if name.lower() in have:
             continue
-        for at in ({0, len(book.sheets)} if full else {[0, len(book.sheets)][i % 2]}):
+        for at in ([0, len(book.sheets)] if full else [[0, len(book.sheets)][i % 2]]):
             content = ("empty", "table", "copy")[i % 3]
             out.append(Op("extra-sheet-underscore" if name.startswith("_") else "extra-sheet",
                           f"sheet {name!r} ({content}) at position {at}", _add_sheet(name, at, content)))
@@ -1123,9 +1123,12 @@ def compare(ref: Result, got: Result, book: Book, st: State):
 
     try:
         a = canon_xform(ref.xform, rename)
-        b = canon_xform(got.xform)
     except ET.ParseError:
-        return None             # not well-formed output is C01's business
+        return None             # not well-formed output for W itself is C01's business
+    try:
+        b = canon_xform(got.xform)
+    except ET.ParseError as e:
+        return "xform", f"the rewritten form gives XML that is not well-formed ({e}); the reference parses"
     if a != b:
         return "xform", first_difference(a, b) or "trees differ"
     d = compare_warnings(list(ref.warnings or []), list(got.warnings or []), maps, st)
@@ -1263,8 +1266,8 @@ class Runner:
 
 
 def check(case: Case, res: Result, ctx: dict) -> list[dict]:
-    if not res.ok or not res.xform:
-        return []
+    if case.wb is None and (not res.ok or not res.xform):
+        return []               # (workbook cases are delivered by this oracle itself: see Runner.ref)
     wb = corpus.case_wb(case) if case.wb is None else case.wb
     if wb is None or wb_usable(wb):
         return []
@@ -1516,7 +1519,7 @@ def cases(tier: str, seed: int) -> list[Case]:
     for name, wb in {**family(), **_tiny_forms()}.items():
         out.append(Case(f"C13-{name}", wb=wb, origin="C13-family", tags={"c13-full"}))
     # generated forms of the shared grammar, every one with the exhaustive single-site treatment (capped in quick)
-    n = 20 if tier == "quick" else 300
+    n = 20 if tier == "quick" else 120
     for c in corpus.generated(seed + 1313, n, "mixed"):
         out.append(Case("C13-half-" + c.name, wb=c.wb, origin="C13-generated", tags={"c13-half"}))
     for c in corpus.generated(seed + 1314, n // 2, "lang"):
